@@ -221,3 +221,13 @@ func Shape(t *rapid.T, o *DocOpts) string {
 	}
 	return "doc:regular"
 }
+
+// Shaped returns o unchanged three times out of four and otherwise re-shaped by
+// Shape (wide, deep, a chain of 25 levels, many attributes); the label says which.
+func Shaped(t *rapid.T, o DocOpts) (DocOpts, string) {
+	if rapid.IntRange(0, 3).Draw(t, "shaped") != 3 {
+		return o, "doc:regular"
+	}
+	label := Shape(t, &o)
+	return o, label
+}
